@@ -1,4 +1,6 @@
+mod hooks;
 mod model;
+mod txm;
 mod c01;
 mod c02;
 mod c03;
@@ -68,6 +70,7 @@ fn main() {
         i += 1;
     }
     util::install_panic_hook();
+    hooks::install();
     match id.as_str() {
         "C01" => c01::run(tier, seed),
         "C02" => c02::run(tier, seed),
